@@ -751,6 +751,14 @@ contract(SF, "_Schedule.add_pulse", props=("C01", "C02", "C03", "C07", "C09", "C
 # --------------------------------------------------------------------------
 # add_target (C10, C02)
 # --------------------------------------------------------------------------
+def no_pending_fall(h, cs):
+    """the most recent pulse (if any) has ramped down: wait_for_fall inserts nothing"""
+    arr, n = cs_arr(h, cs), cs_len(h, cs)
+    f = z3.BoolVal(False)
+    L = LPSI(arr, n, f)
+    return z3.Or(n == 0, lps_none(arr, n, f), s_tf(z3.Select(arr, L)) + FALL(s_pulse(z3.Select(arr, L)), cs_chan(cs), in_eom(h, cs)) <= s_tf(z3.Select(arr, n - 1)))
+
+
 def add_target_requires(c):
     cs = S(c)
     return writer_requires(c) + [
@@ -785,6 +793,7 @@ contract(SF, "_Schedule.add_target", props=("C02", "C10", "C09"),
                  "RuntimeError": ("only-if", lambda c: z3.Not(sch_maxdur_none(T(c.self))))},
          modifies={SLOTS: lambda c: [S(c)]},
          exc_safe=True,
+         exc_safe_if=lambda c: no_pending_fall(c.old, S(c)),
          )
 
 
